@@ -345,7 +345,8 @@ def main():
         cov.update(extra.get('coverage', {}))
         ev = {'property_id': pid, 'tier': tier if tier in ('quick', 'thorough') else 'quick', 'seed': seed, 'level': 'proof', 'coverage': cov,
               'assumptions': mod.ASSUMPTIONS, 'wall_s': round(time.time() - t_start, 2), 'violations': len(violations)}
-        json.dump(ev, open(evid_path, 'w'), indent=1)
+        # a replay re-runs recorded cases only: it must not replace the evidence of the property's check
+        json.dump(ev, open(evid_path if not replay else os.path.join(VERIF, 'replays', 'replay_evidence_%s.json' % pid), 'w'), indent=1)
     finally:
         shutil.rmtree(tmp, ignore_errors=True)
     sys.exit(exit_code)
